@@ -5,7 +5,7 @@ package rules
 // The percent-encoders (functions taking a *PercentEncodeSet and returning a string) and the percent-decoders walk
 // their input once and append what each element becomes. A way out of that loop other than exhaustion — a `break`, a
 // `return` from the body — drops the rest of the text for the inputs that reach it. The only exits accepted besides
-// the loop's own are those taken on the non-nil side of a test of an error value (an abort that reports).
+// the loop's own are those taken on the non-nil side of a test of an error value, or on the failing side of an ok flag a call handed back (an abort).
 
 import (
 	"fmt"
@@ -116,6 +116,20 @@ func init() {
 									}
 									if e != nil && isErrorType(e.Type()) && (si == 0) == (bo.Op == token.NEQ) {
 										okExit = true
+									}
+								}
+							}
+							// … or on the failing side of an ok flag a call handed back (`v, ok := f(x); if !ok { return … }`)
+							if iff, isIf := lastIf(b); isIf && !okExit {
+								cond, neg := iff.Cond, false
+								if u, isU := cond.(*ssa.UnOp); isU && u.Op == token.NOT {
+									cond, neg = u.X, true
+								}
+								if ex, isEx := cond.(*ssa.Extract); isEx {
+									if _, isCall := ex.Tuple.(*ssa.Call); isCall {
+										if bt, isB := ex.Type().Underlying().(*types.Basic); isB && bt.Kind() == types.Bool && (si == 0) == neg {
+											okExit = true
+										}
 									}
 								}
 							}
